@@ -2,6 +2,8 @@
 From WC Require Import Str Glob WcParse.
 From WC.Gen Require Import Consts FlagFuns.
 From WC.Proofs Require Import GlobLemmas Bits C17Lemmas.
+(* the committed snapshot of the regex source texts (RE_MOUNT, RE_SPLIT, both platforms) the REALPATH matcher model was written for; a changed text breaks this import *)
+From WC.Proofs Require Pinned_wcmatch.
 Open Scope Z_scope.
 
 (* glob() always matches with REALPATH semantics on this platform: Glob.__init__ passes flags | REALPATH through
